@@ -5,17 +5,26 @@
 // crash/timeout of a single script is the observation `panic` / `hang` appended to the observations made so far.
 //
 // Line kinds (one self-contained script per line):
-//   tp <gen> <kinds> <opt> | reg:i unr:i sd:c ff:c tr:k st:k:j en:j sp:k psd:i … => <obs> …
-//   lp <gen> <kinds> | lg:k em:k ff:c sd:c … => <obs> …
-//   mp <gen> <kinds> | mt:k ad:k co:i ff:c sd:c … => <obs> …
-//   ctp|clp|cmp <gen> <kinds> | <prefix ops> ! <ops run by concurrent callers> ! <suffix ops>
-//                  => <prefix obs> ! <results of the callers> ! <one obs: deltas over the concurrent phase> ! <suffix obs>
+//
+//	tp <gen> <kinds> <opt> | reg:i unr:i sd:c ff:c tr:k st:k:j en:j sp:k psd:i … => <obs> …
+//	gtp <gen> <kinds> | <tp ops> endg:j:k <tp ops> rel … => <obs> …     forced schedule: `endg:j:k` Ends span slot j in a
+//	               goroutine whose delivery parks inside OnEnd of recording processor k (obs `parked…`; `-…` if the End
+//	               ran through), the following ops run while that End is mid-delivery, `rel` releases it and waits for
+//	               the End to return (a panic inside End is recovered and observed as `panic`)
+//	lp <gen> <kinds> | lg:k em:k ff:c sd:c … => <obs> …
+//	mp <gen> <kinds> | mt:k ad:k co:i ff:c sd:c … => <obs> …
+//	ctp|clp|cmp <gen> <kinds> | <prefix ops> ! <ops run by concurrent callers> ! <suffix ops>
+//	               => <prefix obs> ! <results of the callers> ! <one obs: deltas over the concurrent phase> ! <suffix obs>
+//
 // kinds: comma list; trace/log: r sr sn br bn (recording processor, simple/batch around a recording / nil exporter);
-//        metric: m p (manual reader, periodic reader around a recording exporter); `-` = none
+//
+//	metric: m p (manual reader, periodic reader around a recording exporter); `-` = none
+//
 // contexts c: b background, f live with a far deadline, c already cancelled, e 1 ms timeout that has expired
 // obs: <res>[;<i>.<field><delta>…]…   res: - ok err:<flags c d s o> sdk noop v<total> panic hang
-//        fields: a OnStart, e OnEnd/OnEmit, f ForceFlush, s Shutdown, n items exported (metric: Export calls);
-//        for stock processors the counters are those of their recording exporter.
+//
+//	fields: a OnStart, e OnEnd/OnEmit, f ForceFlush, s Shutdown, n items exported (metric: Export calls);
+//	for stock processors the counters are those of their recording exporter.
 package c15life
 
 import (
@@ -52,12 +61,29 @@ func (c *cnt) snap() [5]int64 {
 	return [5]int64{c.a.Load(), c.e.Load(), c.f.Load(), c.s.Load(), c.n.Load()}
 }
 
-type recSpanProc struct{ c *cnt }
+// gateCtl parks ONE OnEnd call of the armed recording processor until released.
+type gateCtl struct {
+	armed   atomic.Int32 // pool index + 1 of the processor whose next OnEnd parks; 0 = none
+	parked  chan struct{}
+	release chan struct{}
+}
+
+type recSpanProc struct {
+	c   *cnt
+	idx int
+	g   *gateCtl
+}
 
 func (p recSpanProc) OnStart(context.Context, sdktrace.ReadWriteSpan) { p.c.a.Add(1) }
-func (p recSpanProc) OnEnd(sdktrace.ReadOnlySpan)                      { p.c.e.Add(1) }
-func (p recSpanProc) ForceFlush(context.Context) error                 { p.c.f.Add(1); return nil }
-func (p recSpanProc) Shutdown(context.Context) error                   { p.c.s.Add(1); return nil }
+func (p recSpanProc) OnEnd(sdktrace.ReadOnlySpan) {
+	p.c.e.Add(1)
+	if p.g != nil && p.g.armed.CompareAndSwap(int32(p.idx+1), 0) {
+		p.g.parked <- struct{}{}
+		<-p.g.release
+	}
+}
+func (p recSpanProc) ForceFlush(context.Context) error { p.c.f.Add(1); return nil }
+func (p recSpanProc) Shutdown(context.Context) error   { p.c.s.Add(1); return nil }
 
 type recSpanExp struct{ c *cnt }
 
@@ -70,8 +96,8 @@ func (x recSpanExp) Shutdown(context.Context) error { x.c.s.Add(1); return nil }
 type recLogProc struct{ c *cnt }
 
 func (p recLogProc) OnEmit(context.Context, *sdklog.Record) error { p.c.e.Add(1); return nil }
-func (p recLogProc) ForceFlush(context.Context) error              { p.c.f.Add(1); return nil }
-func (p recLogProc) Shutdown(context.Context) error                { p.c.s.Add(1); return nil }
+func (p recLogProc) ForceFlush(context.Context) error             { p.c.f.Add(1); return nil }
+func (p recLogProc) Shutdown(context.Context) error               { p.c.s.Add(1); return nil }
 
 type recLogExp struct{ c *cnt }
 
@@ -213,12 +239,16 @@ type tpRun struct {
 	w       *world
 	tp      *sdktrace.TracerProvider
 	pool    []sdktrace.SpanProcessor
+	kinds   []string
 	tracers map[int]trace.Tracer
 	spans   map[int]trace.Span
+	gate    *gateCtl
+	fly     chan string // result channel of the parked End, nil if none
 }
 
 func newTP(kinds []string, optN int, ops []string) (*tpRun, int) {
-	r := &tpRun{w: newWorld(len(kinds)), tracers: map[int]trace.Tracer{}, spans: map[int]trace.Span{}}
+	r := &tpRun{w: newWorld(len(kinds)), kinds: kinds, tracers: map[int]trace.Tracer{}, spans: map[int]trace.Span{},
+		gate: &gateCtl{parked: make(chan struct{}), release: make(chan struct{})}}
 	far := sdktrace.WithBatchTimeout(time.Hour)
 	for i, k := range kinds {
 		var p sdktrace.SpanProcessor
@@ -232,7 +262,7 @@ func newTP(kinds []string, optN int, ops []string) (*tpRun, int) {
 		case "bn":
 			p = sdktrace.NewBatchSpanProcessor(nil, far)
 		default:
-			p = recSpanProc{r.w.cs[i]}
+			p = recSpanProc{r.w.cs[i], i, r.gate}
 		}
 		r.pool = append(r.pool, p)
 	}
@@ -307,6 +337,46 @@ func (r *tpRun) op(tok string) string {
 			s.End()
 		}
 		return "-"
+	case "endg":
+		s, ok := r.spans[arg(1)]
+		if !ok {
+			return "-"
+		}
+		if r.fly != nil { // one gate at a time: an ordinary End
+			s.End()
+			return "-"
+		}
+		k := arg(2)
+		if k < len(r.kinds) && r.kinds[k] == "r" {
+			r.gate.armed.Store(int32(k + 1))
+		}
+		done := make(chan string, 1)
+		go func() {
+			defer func() {
+				if x := recover(); x != nil {
+					done <- "panic"
+					return
+				}
+				done <- "-"
+			}()
+			s.End()
+		}()
+		select {
+		case <-r.gate.parked:
+			r.fly = done
+			return "parked"
+		case msg := <-done:
+			r.gate.armed.Store(0)
+			return msg
+		}
+	case "rel":
+		if r.fly == nil {
+			return "-"
+		}
+		r.gate.release <- struct{}{}
+		msg := <-r.fly
+		r.fly = nil
+		return msg
 	case "psd":
 		if arg(1) < len(r.pool) {
 			return resOf(r.pool[arg(1)].Shutdown(context.Background()))
@@ -317,6 +387,11 @@ func (r *tpRun) op(tok string) string {
 }
 
 func (r *tpRun) close() {
+	if r.fly != nil {
+		r.gate.release <- struct{}{}
+		<-r.fly
+		r.fly = nil
+	}
 	r.tp.Shutdown(context.Background())
 	for _, p := range r.pool {
 		p.Shutdown(context.Background())
@@ -509,7 +584,7 @@ func runScript(toks []string, emit func(string)) {
 	var r runner
 	var w *world
 	skip := 0
-	switch strings.TrimPrefix(kind, "c") {
+	switch strings.TrimPrefix(strings.TrimPrefix(kind, "c"), "g") {
 	case "tp":
 		optN := 0
 		if bar > 3 {
@@ -682,7 +757,12 @@ func runOne(t *testing.T, line string) string {
 
 func emitAll(t *testing.T, out *vOut, lines []string) {
 	const B = 60
+	crashes := 0
 	for i := 0; i < len(lines); i += B {
+		if crashes >= 20 {
+			// the tree crashes/hangs all over: the violation is certain, do not spend minutes re-running every batch
+			return
+		}
 		j := i + B
 		if j > len(lines) {
 			j = len(lines)
@@ -697,7 +777,11 @@ func emitAll(t *testing.T, out *vOut, lines []string) {
 		}
 		// crash or hang somewhere in the batch: the culprit may be an earlier script's goroutine → all alone
 		for _, l := range batch {
-			out.Line("%s => %s", l, runOne(t, l))
+			o := runOne(t, l)
+			if strings.HasSuffix(o, "panic") || strings.HasSuffix(o, "hang") {
+				crashes++
+			}
+			out.Line("%s => %s", l, o)
 		}
 	}
 }
@@ -838,6 +922,72 @@ func genMP(r *vRand) string {
 	return fmt.Sprintf("mp rnd %s | %s", kindStr(ks), strings.Join(ops, " "))
 }
 
+// genGate: forced schedule — an End parked inside a recording processor while the membership changes.
+func genGate(r *vRand) string {
+	n := 2 + r.Intn(4)
+	ks := make([]string, n)
+	for i := range ks {
+		ks[i] = "r"
+	}
+	ops := []string{"tr:0"}
+	order := make([]int, 0, n+1)
+	for i := 0; i < n; i++ {
+		if r.Intn(6) > 0 {
+			order = append(order, i)
+		}
+	}
+	if len(order) < 2 {
+		order = []int{0, 1}
+	}
+	if r.Intn(5) == 0 { // a duplicate registration
+		order = append(order, order[r.Intn(len(order))])
+	}
+	for i := len(order) - 1; i > 0; i-- { // shuffle
+		j := r.Intn(i + 1)
+		order[i], order[j] = order[j], order[i]
+	}
+	for _, i := range order {
+		ops = append(ops, fmt.Sprintf("reg:%d", i))
+	}
+	ops = append(ops, "st:0:0")
+	if r.Bool() {
+		ops = append(ops, "sp:0")
+	}
+	gatePos := r.Intn(len(order))
+	gate := order[gatePos]
+	if r.Intn(12) == 0 {
+		gate = r.Intn(n) // possibly not registered: the End runs through
+	}
+	ops = append(ops, fmt.Sprintf("endg:0:%d", gate))
+	for k := 1 + r.Intn(4); k > 0; k-- {
+		x := r.Intn(100)
+		switch {
+		case x < 45: // unregister, mostly one registered before the gate
+			i := order[r.Intn(len(order))]
+			if gatePos > 0 && r.Intn(3) > 0 {
+				i = order[r.Intn(gatePos)]
+			}
+			ops = append(ops, fmt.Sprintf("unr:%d", i))
+		case x < 60:
+			ops = append(ops, fmt.Sprintf("reg:%d", r.Intn(n)))
+		case x < 68:
+			ops = append(ops, "sd:b")
+		case x < 76:
+			ops = append(ops, "ff:b")
+		case x < 86:
+			ops = append(ops, "sp:0")
+		case x < 92:
+			ops = append(ops, "st:0:1", "en:1")
+		case x < 96:
+			ops = append(ops, "en:0") // the span is already ended: no-op
+		default:
+			ops = append(ops, "tr:1", "sp:1")
+		}
+	}
+	ops = append(ops, "rel", "sp:0", "sd:b", "sp:0")
+	return fmt.Sprintf("gtp gate %s | %s", kindStr(ks), strings.Join(ops, " "))
+}
+
 // genConc: every pool component registered at most once in the prefix; 2..8 concurrent callers.
 func genConc(r *vRand) string {
 	switch r.Intn(3) {
@@ -939,6 +1089,8 @@ func TestVerifC15Life(t *testing.T) {
 			lines = append(lines, genLP(r))
 		case i%10 < 8:
 			lines = append(lines, genMP(r))
+		case i%10 == 8:
+			lines = append(lines, genGate(r))
 		default:
 			lines = append(lines, genConc(r))
 		}
